@@ -49,11 +49,29 @@ def seq_spec(pid, level, rule, profile, oracle_factory, nontrivial_fn=None, worl
     return runner.CheckSpec(pid=pid, level=level, rule=rule, run_one=run_one, replay_fn=replay_fn, minimise_fn=minimise_fn, components=COMPONENTS_SEQ, **kw)
 
 
+def estimate_hook(p_est=0.5, p_cache=0.3):
+    """Before an add: ask for the estimate of the very same add (optionally
+    with a cache flush in between) so that C03 can compare the two."""
+
+    def hook(ctx, st, actor, op, snap, obr, fr):
+        if op["op"] != "add" or op["ch"] not in snap.channels or snap.parametrized:
+            return
+        if obr.random() >= p_est:
+            return
+        est = {"op": "obs_estimate", "pulse": op["pulse"], "ch": op["ch"], "protocol": op.get("protocol", "min-delay")}
+        st.step("observer", est)
+        if fr.random() < p_cache:
+            ctx.stats["fault/cache/configured"] += 1
+            st.step("fault", {"op": "cache_clear"}, "cache/clear")
+
+    return hook
+
+
 _REG = {}
 
 
 def _build():
-    from .oracles import c02
+    from .oracles import c02, c03
 
     _REG["C02"] = seq_spec(
         "C02",
@@ -64,6 +82,26 @@ def _build():
         nontrivial_fn=c02.nontrivial,
         assumptions=["Pulse.fall_time of the real code is a trusted input to the expected pending-fall duration"],
         expected_probes=["pending_fall_time"],
+    )
+
+
+    _REG["C03"] = seq_spec(
+        "C03",
+        "exploration",
+        "seeded SEQ-SIM runs on >=2 channels; every pulse-adding step is compared with RefSched (safety strict, minimality over 4 declared readings), estimate_added_delay issued right before the same add, align checked against pre-state ends; non-trivial = a conflict forced a delay that needed clock/min-duration rounding (or >=1 conflict delay and >=2 inserted delays); distinct = distinct concrete op traces",
+        A.make_profile(
+            n_channels=(2, 4),
+            chan_ops={"add": 12, "delay": 2, "target": 3, "phase_shift": 2, "align": 3, "enable_eom": 2},
+            w_fault=0.3,
+            fault_kinds={"bad": 2, "restart": 1, "cache": 2},
+            pre_op_hook=estimate_hook(),
+            measure_p=0.05,
+        ),
+        lambda: [c03.C03()],
+        nontrivial_fn=c03.nontrivial,
+        world_kw={"bw_bias": 0.8},
+        assumptions=["Pulse.fall_time of the real code is a trusted input", "scheduled phases are read from the SUT (phase arithmetic is C07's business)"],
+        expected_probes=["conflict_forced_delay", "conflict_delay_rounded_up", "phase_jump_buffer_applied", "phase_barrier_applied", "estimate_then_add", "align_padded", "align_with_pending_fall"],
     )
 
 
